@@ -25,6 +25,10 @@ def run(chk, gate, status):
     gens = make_cases(chk)
     chk.assumptions += ['recipe-level fill_to on a slice is covered by C08 (known finding D13)']
     cov = histcheck.run(chk, gens, oracles.c07, 'C07', RULE, nontrivial)
+    # under other configurations (separate processes, dumps only): wells keep the capacity the plate was made with, nothing impossible
+    # is produced, feasible requests are accepted (c03), and wells outside the addressed regions stay identical (the frame clause of C01)
+    cov['operations_under_configuration_variants'] = histcheck.variants(
+        chk, gens, lambda prog, obs, impl: oracles.c03(prog, obs, impl) + base.oracle(prog, obs, impl), 'C07v', limit=8 if chk.tier == 'quick' else 60)
     # recipe steps on plates and slices act on the wells addressed when the step was written (operands spelled as slices, slices of
     # slices and list selectors whose list is changed afterwards): the baked plates against the eager execution and the model
     from props import C08
